@@ -205,6 +205,27 @@ func c03(run *ev.Run) int {
 				}
 			}
 		}
+		// ---- response direction, receiver rejecting a message locally: a tiny
+		// read limit makes the client refuse the first message; what it reports
+		// then (its own error or the status the peer sent in the trailers) must
+		// not depend on segmentation or on where the EOF is reported either.
+		if rec.Scenario == "err" && len(rec.Replies) > 0 && i >= len(small) {
+			tiny := connect.WithReadMaxBytes(8)
+			b0, _ := rec.replayResponse(&wire.ScriptedBody{Data: rec.Ex.Result.Body}, true, tiny)
+			b0s := clientOutcome(b0, true)
+			for _, seg := range segs {
+				for _, eofWith := range []bool{false, true} {
+					got, _ := rec.replayResponse(&wire.ScriptedBody{Data: rec.Ex.Result.Body, Chunks: seg, EOFWithData: eofWith}, true, tiny)
+					run.Eval(fmt.Sprintf("%s|resp-local-reject|%s", rec.Name, segClass(seg, len(rec.Ex.Result.Body))))
+					run.Count("replays.response", 1)
+					if s := clientOutcome(got, true); s != b0s {
+						run.Violation(key+"/resp/segmentation-local-reject", "client outcome (after rejecting a message locally) depends on how the response body is segmented / where EOF is reported",
+							map[string]any{"case": rec.Name, "chunks": trimInts(seg), "eof_with_data": eofWith, "one_piece": b0s, "segmented": s})
+						return
+					}
+				}
+			}
+		}
 		// ---- request direction
 		hl0, res0 := rec.replayRequest(&wire.ScriptedBody{Data: rec.Ex.ReqBody}, drainProgram())
 		base2 := handlerOutcome(hl0, res0, true)
